@@ -156,6 +156,15 @@ package slip
 // closure captured when it was built: compiled code caches the Lambda of an
 // inline ((lambda ...) ...) form together with the scope of its first
 // evaluation, and only this order keeps that stale scope harmless.
+//@   option trace
+// C04: a default of an &optional / &key parameter that is a form is evaluated
+// when the call supplies no argument: what gets bound is the result of that
+// evaluation, never the form itself.
+//@ define is_form(d) = is(d, List) && len(as(d, List)) > 1
+//@   on-call Let#5 optional-default-is-evaluated: is_form(ad.Default) ==> ($n >= 1 && $arg1 == $eres[$n - 1])
+//@   on-call Let#6 optional-default-after-rest-is-evaluated: is_form(ad.Default) ==> ($n >= 1 && $arg1 == $eres[$n - 1])
+//@   on-call Let#7 key-default-is-evaluated: is_form(ad.Default) ==> ($n >= 1 && $arg1 == $eres[$n - 1])
+//@   on-call Let#8 aux-value-is-evaluated: is_form(ad.Default) ==> ($n >= 1 && $arg1 == $eres[$n - 1])
 //@   on-store parents#1 caller-scope-first: len(now) >= 2 && now[0] == s && now[len(now) - 1] == lam.Closure
 
 // ---------------------------------------------------------------------------
